@@ -44,6 +44,8 @@ type World struct {
 	GCOK int
 	// NoDeleteAfterGC: set when a check must avoid the known GC resurrection defect.
 	ValSizes []int
+	// DiscardFrac is the fraction of writes carrying the discard-earlier-versions bit.
+	DiscardFrac float64
 }
 
 // Open opens a DB for the driver (no background compactors).
@@ -163,6 +165,8 @@ func (w *World) RandomCommit(delFrac, expFrac float64) error {
 		switch {
 		case w.R.Float64() < delFrac:
 			s.Del = true
+		case w.R.Float64() < w.DiscardFrac:
+			s.Discard = true
 		case w.R.Float64() < expFrac:
 			s.Meta = byte(1 + w.R.Intn(200))
 			if w.R.Intn(2) == 0 {
@@ -197,10 +201,26 @@ func (w *World) Flush() bool {
 	return ok
 }
 
-// noteDiscard records the largest timestamp a compaction starting now may use as discard ts.
+// noteDiscard records an upper bound, independent of badger's own bookkeeping, of the discard
+// timestamp a compaction starting now may use: the managed discard ts, or in normal mode the smallest
+// read timestamp of an open snapshot (the newest commit when none is open).
 func (w *World) noteDiscard() {
-	if d := w.DB.VerifDiscardTs(); d > w.MaxU {
-		w.MaxU = d
+	var u uint64
+	if w.Managed {
+		u = w.Discard
+	} else {
+		u = w.DB.VerifNextTxnTs() - 1
+		for _, s := range w.Snaps {
+			// the read watermark may reach an open transaction's own read timestamp (a compaction
+			// at discard ts D keeps the newest version <= D of every key, which is what a reader
+			// at D needs), never exceed it
+			if s.ReadTs < u {
+				u = s.ReadTs
+			}
+		}
+	}
+	if u > w.MaxU {
+		w.MaxU = u
 	}
 }
 
@@ -408,9 +428,9 @@ func (w *World) CheckInvariance(step string) hist.Stats {
 	}
 	before := w.C.Violations()
 	// now
-	add(hist.CheckState(w.C, w.Sig+"|after:"+step+"|now", w.DB, w.M, hist.StateOpts{Managed: w.Managed}))
+	add(hist.CheckState(w.C, w.Sig+"|now", w.DB, w.M, hist.StateOpts{Managed: w.Managed}))
 	for _, s := range w.Snaps {
-		add(hist.CheckReads(w.C, w.Sig+"|after:"+step+"|snapshot", readVia(s.Txn, w.M, w.Managed), w.M))
+		add(hist.CheckReads(w.C, w.Sig+"|snapshot", readVia(s.Txn, w.M, w.Managed), w.M))
 	}
 	if w.Managed {
 		for i := 0; i < 3; i++ {
@@ -422,12 +442,14 @@ func (w *World) CheckInvariance(step string) hist.Stats {
 				break
 			}
 			ts := lo + uint64(w.R.Int63n(int64(w.NextTs-lo)))
-			add(hist.CheckState(w.C, w.Sig+"|after:"+step+"|managed-ts", w.DB, w.M, hist.StateOpts{Managed: true, ReadTs: ts}))
+			add(hist.CheckState(w.C, w.Sig+"|managed-ts", w.DB, w.M, hist.StateOpts{Managed: true, ReadTs: ts}))
 		}
 	}
 	if w.C.Violations() > before {
-		// attach the step log to the replay directory for the reader
-		w.C.Set("last_failing_steps", w.Witness())
+		// attach the step log for the reader
+		wit := w.Witness()
+		wit["failed_after_step"] = step
+		w.C.Set("last_failing_steps", wit)
 	}
 	return total
 }
